@@ -223,6 +223,9 @@ fn related(rng: &mut Rng, p: &Ivs) -> Ivs {
 }
 
 pub fn run(p: &Params, rep: &mut Report) {
+    if p.shard == 3 {
+        super::ladder::discrete_partitions(rep, "C12", p.seed);
+    }
     let mut rng = p.rng(12);
     let n = p.size(30_000, 400_000);
     for i in 0..n {
